@@ -119,6 +119,16 @@ FS_Prefix(t, p, l, off) == [ip_prefix |-> [type |-> t, prefix_len |-> l, prefix 
 FS_Mac(t, m) == [mac |-> [type |-> t, address |-> m]]
 FS_Item(op, v) == [op |-> op, value |-> v]
 FS_Comp(t, items) == [component |-> [type |-> t, items |-> items]]
+(* a component item's operator octet (RFC 8955 4.2.1): end-of-list 0x80 | and 0x40 | operand length 0x30
+   (1 << len octets) | comparison bits lt 0x04 gt 0x02 eq 0x01 (numeric) or not 0x02 match 0x01 (bitmask).
+   The operand length is an INDEPENDENT dimension: a value may be carried in more octets than it needs
+   (dst-port 80 in two octets, 0x91 0x00 0x50, is a valid encoding and another octet string than 0x81 0x50).
+   FsVals pairs a value with the smallest length code that holds it. *)
+FsOp(e, a, l, c) == ToString((IF e THEN 128 ELSE 0) + (IF a THEN 64 ELSE 0) + 16 * l + c)
+FsVals == {<<"0", 0>>, <<"80", 0>>, <<"255", 0>>, <<"256", 1>>, <<"8080", 1>>, <<"65535", 1>>, <<"65536", 2>>,
+           <<"4294967295", 2>>, <<"4294967296", 3>>}
+FsLens(v) == {l \in 0..3 : l >= v[2]}                 \* every operand length that can hold the value
+FS_ItemL(e, a, l, c, v) == FS_Item(FsOp(e, a, l, c), v[1])
 N_Flow(rules) == [flow_spec |-> [rules |-> rules]]
 N_FlowVpn(rd, rules) == [vpn_flow_spec |-> [rd |-> rd, rules |-> rules]]
 N_Opaque(k, v) == [opaque |-> [key |-> k, value |-> v]]
@@ -143,7 +153,7 @@ V4Prefixes == {<<"0.0.0.0", "0">>, <<"128.0.0.0", "1">>, <<"10.0.0.0", "8">>, <<
                <<"10.1.2.3", "32">>, <<"255.255.255.255", "32">>}
 V6Prefixes == {<<"::", "0">>, <<"2001:db8::", "32">>, <<"2001:db8:1::", "64">>, <<"2001:db8::1", "128">>,
                <<"::ffff:10.0.0.1", "128">>}
-LabelStacks == {<<"16">>, <<"0">>, <<"1048575">>, <<"16", "17">>, <<"3", "16", "1048575">>}
+LabelStacks == {<<"16">>, <<"0">>, <<"1048575">>, <<"524288">>, <<"16", "17">>, <<"3", "16", "1048575">>}   \* 524288 = withdraw label 0x800000
 
 (* one NLRI of each family, used inside MP_REACH / MP_UNREACH and for paths *)
 NlriOf(f) ==
